@@ -1,15 +1,17 @@
 """C19 — bundled succinct structures agree with their plain definitions."""
-from props import compcheck, gen_bits, gen_cds32
+from props import compcheck, gen_bits, gen_cds32, gen_rrr
 from props.subgen import Sub
 
 
 def check(run, tier, seed, replay):
-    compcheck.run(run, "C19", [gen_bits, Sub(gen_cds32, ["bits"])], tier, seed, replay, timeout_case=(40 if tier == "quick" else 120),
+    compcheck.run(run, "C19", [gen_bits, Sub(gen_cds32, ["bits"]), gen_rrr], tier, seed, replay, timeout_case=(40 if tier == "quick" else 120),
                   rule="bit vectors of lengths 1, 31..33, 63..65, around multiples of 32*factor, up to ~2000 (10007 thorough): all-zero, all-one, "
                        "single 1 first/last, alternating, long runs, random at densities 1/50/99%; builders RG(factor 1,2,4,20), RRR(16,32), SDArray, "
                        "DArray; every access/rank0/rank1/select0/select1 (all positions for small n, boundaries + random otherwise, select "
                        "arguments 0,1,ones,ones+1), fresh and after save/load (tellg); RG additionally at layout level (Rs, data, ones, image "
-                       "bytes) against the concrete model; WaveletTree / WaveletTreeNoptrs sequences built as the FM-index and XBW build them. "
+                       "bytes) against the concrete model; BitSequenceRRR at layout level too (C, O, C_sampling, O_pos words, image bytes, the universal "
+                       "offset table) against the word-exact RRR model for sample rates 1,2,3,5,16,32,33,128 and lengths around multiples of 15, "
+                       "15*sample_rate and 32; WaveletTree / WaveletTreeNoptrs sequences built as the FM-index and XBW build them. "
                        "Non-trivial = a build + query command list; distinct by command list.",
                   assumptions=["RRR, SDArray, DArray, WaveletTreeNoptrs: no concrete model (compared with the plain definitions only); "
                                "the Huffman shape of the wavelet tree is validated per instance by the verified separability checker"])
